@@ -64,7 +64,9 @@ ASSUMPTIONS = [
     "has just passed, and a timer callback's time is the time the loop ran it (oracle and model agree on this "
     "reading; with a punctual loop a hold fires exactly at change + ms)",
     "hold times are whole milliseconds >= 0; is_state/is_active(ms) has millisecond resolution (rounded elapsed "
-    "time): the oracle accepts either answer within 0.51 ms of the threshold, queries at x.5 ms elapsed are not asked",
+    "time): the oracle accepts either answer within 0.51 ms of the threshold, queries (and wait_for_switch with "
+    "only_on_change=False, which starts with such a query) at x.5 ms +-10 us elapsed are not issued: the float "
+    "rounding there depends on the absolute clock value",
     "the loop runs a due wake-up before any external operation with a later timestamp unless the case says the loop "
     "is late",
     "config suite: event/time strings of the forms generated (one '|' at most, '<digits>', '<digits>ms', '<digits>s'), "
@@ -611,6 +613,12 @@ def _run(st, case):
         elif kind == "wait":
             # wait_for_switch(state 0/1/2, only_on_change, ms): a future; its handler is callback number 100+idx
             wid = 100 + idx
+            el = _us(st, rig.now()) - _us(st, sw.last_change)
+            if o[5] and generic and not o[4] and o[3] != 2 and 490 <= el % 1000 <= 510:
+                # only_on_change=False asks is_state(ms) first: at x.5 ms elapsed the float decides the rounding
+                # (it depends on the absolute clock value); like a query at such an instant the wait is not issued
+                trace.append(["wskip", _rel(st), swi, wid])
+                return
             fut = sc.wait_for_switch(sw, state=o[3], only_on_change=bool(o[4]), ms=o[5])
             trace.append(["wq", _rel(st), swi, wid, int(fut.done())])
 
@@ -1069,6 +1077,7 @@ def coq_case(case, out):
     acts = dict(case["acts"])
     ran = _oplist(case, out)
     wq = dict((e[3], e[4]) for e in tr if e[0] == "wq")
+    wskip = set(e[3] for e in tr if e[0] == "wskip")
     qans, cur_idx = {}, None
     for e in tr:
         if e[0] == "op":
@@ -1091,6 +1100,9 @@ def coq_case(case, out):
             logical[i] = o[4] if o[3] else o[4] ^ out["invert"][i]
         if kind == "wait":
             wid = 100 + idx
+            if wid in wskip:
+                mops[i].append("(%s, %s, ONop)" % (zlit(t), hold))
+                continue
             st2, ooc, ms = o[3], o[4], o[5]
             hs = (1 - logical[i]) if st2 == 2 else st2
             if not ooc and st2 != 2:
@@ -1342,6 +1354,8 @@ def oracle(case, out):
                 held = (t - sp.lc) if sp.lc is not None else 10 ** 15
                 amb = tol_q and o[4] and abs(held - o[4] * 1000) <= 510       # API resolution: whole milliseconds
                 pending_q = [o[1], int(sp.state == o[3] and (o[4] == 0 or held >= o[4] * 1000)), amb]
+        elif k == "wskip":
+            wres.pop(e[3], None)        # not issued (x.5 ms elapsed, see run_impl)
         elif k == "wq":
             w = wres.get(e[3])
             if w is not None:
